@@ -12,6 +12,9 @@ from .common import harness, outcome, arr, pyint, typed
 def run(c, p):
     from npstructures import BitArray
     a = typed(c["vals"], p["dtype"])
+    if p.get("premask"):
+        from npstructures.bitarray import BitMask
+        BitMask.zeros(9)          # another class of the module (8-bit registers) used first: nothing of it may leak into BitArray
     ba = BitArray.pack(a, c["b"])
     op = p["op"]
     if op == "unpack":
@@ -114,11 +117,12 @@ def jobs(tier, seed):
     bsets = [[32], [16], [8], [4]] + ([] if q else [[2], [1]])
     for bs in bsets:
         nmax = {32: 7, 16: 10, 8: 18, 4: 34, 2: 67, 1: 130}[bs[0]]
+        nmax_list = {2: 34, 1: 66}.get(bs[0], nmax)      # position lists: select chains over more than one register's worth of 1/2-bit cells time out
         if q:
             nmax = min(nmax, {32: 5, 16: 9, 8: 17, 4: 17}[bs[0]])
         for op in ("unpack", "getint", "getlist", "window"):
             # position lists of three entries only for b >= 8 (the select chains over 34..130 cells times three positions time out below)
-            out.append(dict(bs=bs, nmax=nmax, op=op, dtype="uint64", m=3 if (not q and bs[0] >= 8) else 2, nmode="edges" if (q or bs[0] < 4) else "all"))
+            out.append(dict(bs=bs, nmax=nmax_list if op == "getlist" and not q else nmax, op=op, dtype="uint64", m=3 if (not q and bs[0] >= 8) else 2, nmode="edges" if (q or bs[0] < 4) else "all"))
     for dt in ("uint8", "uint16", "int32", "int64"):
         out.append(dict(bs=[4, 8], nmax=9 if q else 17, op="unpack", dtype=dt))
         out.append(dict(bs=[4], nmax=17, op="window", dtype=dt, nmode="edges"))
@@ -126,6 +130,8 @@ def jobs(tier, seed):
     out.append(dict(bs=[16], nmax=6, op="window2", dtype="uint64", nmode="all"))
     out.append(dict(bs=[8], nmax=10, op="window2", dtype="uint8", nmode="edges"))
     out.append(dict(bs=[16], nmax=6, op="after", dtype="uint64", nmode="all"))
+    out.append(dict(bs=[1], nmax=66, op="window", dtype="uint64", nmode="edges", premask=True))
+    out.append(dict(bs=[2, 8], nmax=33, op="unpack", dtype="uint8", nmode="edges", premask=True))
     if q:
         out.append(dict(bs=[2], nmax=33, op="window", dtype="uint64", nmode="edges"))
         out.append(dict(bs=[1], nmax=65, op="unpack", dtype="uint64", nmode="edges"))
